@@ -231,6 +231,22 @@ def run(ctx: Ctx, tier: str) -> Result:
             res.fail(Finding("C02.TYPE", sc.qname, CT, sc.loc(), "frame_type is not read from the action config with default single_frame"))
     else:
         res.fail(Finding("C02.TYPE", sc.qname, "<frame_type>", sc.loc(), "should_collect_vars does not consult the frame_type setting"))
+    # the setting is text that arrives from the service (decoded from the wire: equal to the constants, never the same object):
+    # it is compared by value
+    for cmp_ in t.nodes_in(sc, ast.Compare):
+        if any(isinstance(o, (ast.Is, ast.IsNot)) for o in cmp_.ops):
+            for side in [cmp_.left] + list(cmp_.comparators):
+                val_ = None
+                if isinstance(side, ast.Constant):
+                    val_ = side.value
+                elif isinstance(side, ast.Name) and not t.local_bindings(sc, side.id):
+                    try:
+                        val_ = p.const_value(sc.module, side.id)
+                    except Exception:
+                        val_ = None
+                if isinstance(val_, str):
+                    res.fail(Finding("C02.TYPE", sc.qname, cmp_, sc.loc(cmp_), "`%s` compares the configured frame type by identity with a text constant: a value received from the "
+                                     "service is an equal but different object, so all_frame / no_frame tracepoints are treated as single_frame" % norm(cmp_)))
     if calls and lp is None:
         # comprehension shape: the index was checked to be enumerate()'s with the walk (C02.WALK)
         ia = ctx.expand.expand(t.bind_args(pf, calls[0]).get(pf.params[4]), col)
